@@ -16,13 +16,18 @@
     in a state where the event queue is empty and no job is with an executor or being evaluated,
     EVERY job created has ended (settled with a value or an error; PDryStop in a dry run).
 
-    NOT PROVED here (kept visible; reached by the correspondence run and the implementation's
-    quiescence oracle only): a termination measure for the open machine (the number of events
-    processed is bounded by a function of the number of jobs created); for closed programs that
-    measure is Props/C09Tree.v. *)
+    Termination measure ([C09_events_bounded], Proofs/JobTerm.v): in every run — every workflow shape,
+    completion order, cache content, resource demand — the number of events the scheduler's loop
+    processes is at most (7 + N) * N for N jobs created: a potential (phase rank of every job, plus a
+    budget of N for each job that can still cause one re-examination of the waiting list) drops by at
+    least 1 with every processed event ([C09_event_lowers_potential]), rises by 7 + N when a job is
+    created and never rises on executor completions or evaluation results.  So the loop cannot spin:
+    with finitely many jobs created (the premise "every task function terminates" — the open machine
+    leaves job creation to the schedule; Props/C09Tree.v closes that for programs) only finitely many
+    events are processed, and the quiescent state reached has every job ended. *)
 From Coq Require Import List ZArith Bool Arith Lia.
 From RV Require Import Model.JobMachine Proofs.JobBase Proofs.JobRes Proofs.JobRes3 Proofs.JobWake Proofs.JobWake2
-  Proofs.JobLive Proofs.JobLive4 Proofs.JobDup2 Proofs.JobQuiesce.
+  Proofs.JobLive Proofs.JobLive4 Proofs.JobDup2 Proofs.JobQuiesce Proofs.JobTerm.
 Import ListNotations.
 Open Scope list_scope.
 
@@ -142,6 +147,31 @@ Example C09_quiescent_nonvacuous :
   forallb (fun x => match jphase x with PSettled _ => true | _ => false end) (jobs s) = true.
 Proof. vm_compute. repeat split; reflexivity. Qed.
 
+(** Every processed event lowers the potential; creating a job raises it by 7 + K. *)
+Theorem C09_event_lowers_potential : forall c ops o K,
+  release_if_holds (vr c) = true -> pending_owner_safe (vr c) = true -> (forall r, (0 <= limit_of c r)%Z) ->
+  Forall wf_op ops -> (Z.of_nat (count_new ops) <= K)%Z ->
+  (phi K (step c (run c ops) o) + (if effective (run c ops) o then 1 else 0)
+   <= phi K (run c ops) + (if is_new o then 7 + K else 0))%Z.
+Proof.
+  intros c ops o K H1 H2 H3 Hwf HK. destruct (live_run c H1 H3 ops Hwf) as [_ HI].
+  apply (phi_step c H1 H2 K (run c ops) o (Q_run c H2 ops) HI). rewrite (length_jobs_run c H2). exact HK.
+Qed.
+
+(** The event loop processes at most (7 + N) * N events for N jobs created. *)
+Theorem C09_events_bounded : forall c ops,
+  release_if_holds (vr c) = true -> pending_owner_safe (vr c) = true -> (forall r, (0 <= limit_of c r)%Z) ->
+  Forall wf_op ops ->
+  (Z.of_nat (pops c init ops) <= (7 + Z.of_nat (count_new ops)) * Z.of_nat (count_new ops))%Z.
+Proof. intros c ops H1 H2 H3 Hwf. exact (pops_bounded c H1 H2 H3 ops Hwf). Qed.
+
+Example C09_events_bounded_nonvacuous :
+  pops (c09_cfg all_fixed) init c09_full = 15%nat /\ count_new c09_full = 4%nat /\
+  phi 4 (run (c09_cfg all_fixed) c09_full) = 0%Z.
+Proof. vm_compute. repeat split; reflexivity. Qed.
+
+Print Assumptions C09_event_lowers_potential.
+Print Assumptions C09_events_bounded.
 Print Assumptions C09_no_lost_event.
 Print Assumptions C09_quiescent_all_settled.
 Print Assumptions C09_waiting_has_waker_partial.
